@@ -204,9 +204,6 @@ func judgeSubset(method string, in [][]int, n int, res *explain.Problem, minimal
 		cnt[seqKey(c)]++
 	}
 	got := res.Clauses
-	if res.NbClauses != len(got) {
-		add("result-count-mismatch", fmt.Sprintf("NbClauses=%d but %d clauses", res.NbClauses, len(got)))
-	}
 	for _, c := range got {
 		k := seqKey(c)
 		if cnt[k] == 0 {
